@@ -150,8 +150,32 @@ def _post(ctx, out, spec, axes, atoms, expect_kind):
         from .interp import AbsArr
         import numpy as np
 
-        ok = isinstance(out, (AbsArr, np.ndarray))
+        ok = isinstance(out, (AbsArr, np.ndarray, SymArray))
         ctx.obligations.append(dict(kind="post-type", text="returns an array on this path", status="discharged" if ok else "refuted", backend="structural", detail="" if ok else "got %s" % type(out).__name__))
+        return
+    if isinstance(spec, tuple) and spec and spec[0] == "symlist":
+        # a list of symbolic length: same length, and the element at a fresh universally quantified position against its specification
+        from .sym import SymList
+
+        _, n, elem_spec, elem_axes = spec
+        if not isinstance(out, SymList):
+            ctx.obligations.append(dict(kind="post-type", text="result is a list of %s arrays" % n, status="undecided", backend="structural-mismatch", detail="got %s" % type(out).__name__))
+            return
+        res = exprs_equal(ctx, out.n, n, minimise=atoms)
+        ctx.obligations.append(dict(kind="post-shape", text="len(result) == %s" % n, **res))
+        if res["status"] != "discharged":
+            return
+        j = sym.world().fresh_digit("e", n)
+        _post(ctx, out.elem(sym.Num([(j, n)])), elem_spec(j), elem_axes, atoms, expect_kind)
+        return
+    if isinstance(spec, list):
+        # a list-valued result (e.g. a list of Kraus operators, possibly nested): same length, and each element against its specification
+        if not isinstance(out, list) or len(out) != len(spec):
+            ctx.obligations.append(dict(kind="post-type", text="result is a list of %d elements" % len(spec), status="refuted", backend="structural", detail="got %s" % (type(out).__name__ if not isinstance(out, list) else "%d elements" % len(out))))
+            return
+        ctx.obligations.append(dict(kind="post-type", text="result is a list of %d elements" % len(spec), status="discharged", backend="structural"))
+        for o, s_, ax in zip(out, spec, axes):
+            _post(ctx, o, s_, ax, atoms, expect_kind)
         return
     if not isinstance(out, SymArray):
         ctx.obligations.append(dict(kind="post-type", text="result is an ndarray", status="refuted", backend="structural", detail="got %s" % type(out).__name__))
@@ -170,7 +194,12 @@ def _post(ctx, out, spec, axes, atoms, expect_kind):
         idx.append(num)
     got = out.get(tuple(idx))
     exp = spec.get(tuple(idx))
-    res = entries_equal(ctx, got, exp, minimise=atoms)
+    from . import bilinear
+
+    if isinstance(got, bilinear.Poly) or isinstance(exp, bilinear.Poly):
+        res = bilinear.polys_equal(ctx, got, exp, minimise=atoms)
+    else:
+        res = entries_equal(ctx, got, exp, minimise=atoms)
     side = res.pop("side", None)
     if res["status"] == "undecided" and res["detail"].startswith("unaligned"):
         ctx.obligations.append(dict(kind="scaffold-alignment", text="postcondition sums could not be aligned: %s" % res["detail"], status="undecided", backend="-"))
